@@ -70,6 +70,22 @@ def build(rec):
         return Plane(lib.use_point_elsewhere(Pm(rec[1])), Vm(rec[2]))
     if k == 'Line/VV':
         return Line(Vm(rec[1]), Vm(rec[2]))
+    if k == 'Line/factory-moved':
+        # through the library's own factory objects: a line at the origin (Vector.zero() / origin() as support), moved into place
+        from Geometry3D import origin
+        l = Line(Vector.zero(), Vm(rec[2])) if sum(abs(int(2 * c)) for c in rec[2]) % 2 else Line(origin(), Vm(rec[2]))
+        l.move(Vm(rec[1]))
+        return l
+    if k == 'Plane/factory-moved':
+        from Geometry3D import origin
+        pl = Plane(origin(), Vm(rec[2]))
+        pl.move(Vm(rec[1]))
+        return pl
+    if k == 'Point/factory-moved':
+        from Geometry3D import origin
+        o = origin()
+        o.move(Vm(rec[1]))
+        return o
     if k == 'HalfLine/PV':
         return HalfLine(Pm(rec[1]), Vm(rec[2]))
     if k == 'HalfLine/PnegnegV':
@@ -129,8 +145,12 @@ def den(rec):
         return ('Vector', tuple(rec[1]))
     if k == 'Vector/PP':
         return ('Vector', X.sub(rec[2], rec[1]))
-    if k in ('Line/PV', 'Line/VV'):
+    if k in ('Line/PV', 'Line/VV', 'Line/factory-moved'):
         return X.Ln(rec[1], rec[2])
+    if k == 'Plane/factory-moved':
+        return X.Pl(rec[1], rec[2])
+    if k == 'Point/factory-moved':
+        return X.Pt(rec[1])
     if k in ('Line/PP', 'Line/sharedPP'):
         return X.Ln(rec[1], X.sub(rec[2], rec[1]))
     if k == 'Plane/sharedPN':
@@ -336,6 +356,7 @@ def line_group(p, d):
     reps.append(('Line/PP', X.add(p, X.scal(2, d)), X.sub(p, d), 'float'))
     reps.append(('Line/VV', p, d, 'float'))
     reps.append(('Line/PnegnegV', p, d, 'float'))
+    reps.append(('Line/factory-moved', p, d, 'float'))
     reps.append(('Line/PV', p, d, 'Fraction'))
     reps.append(('Line/PV', p, d, 'int'))
     reps.append(('moveback', ('Line/PV', p, d, 'float'), MOVES[0], 'receiver'))
@@ -408,6 +429,7 @@ def plane_group(p, n):
     reps.append(('Plane/GF', (n[0], n[1], n[2], X.dot(n, p)), 'float'))
     reps.append(('Plane/GF', (-2 * n[0], -2 * n[1], -2 * n[2], -2 * X.dot(n, p)), 'float'))
     reps.append(('Plane/neg', p, n, 'float'))
+    reps.append(('Plane/factory-moved', p, n, 'float'))
     reps.append(('Plane/PN', p, n, 'Fraction'))
     reps.append(('moveback', ('Plane/PN', p, n, 'float'), MOVES[0], 'receiver'))
     reps.append(('moveback', ('Plane/PN', p, n, 'float'), MOVES[1], 'returned'))
@@ -427,7 +449,7 @@ def plane_group(p, n):
 
 def point_group(p, kind):
     if kind == 'Point':
-        reps = [('Point', p, 'float'), ('Point', p, 'Fraction'), ('Point', p, 'int'), ('Point/list', p, 'float'), ('Point/vector', p, 'float'), ('Point/negzero', p, 'float'),
+        reps = [('Point', p, 'float'), ('Point', p, 'Fraction'), ('Point', p, 'int'), ('Point/list', p, 'float'), ('Point/vector', p, 'float'), ('Point/negzero', p, 'float'), ('Point/factory-moved', p, 'float'),
                 ('moveback', ('Point', p, 'float'), MOVES[0], 'receiver'), ('moveback', ('Point', p, 'float'), MOVES[1], 'returned'),
                 ('deepcopy', ('Point', p, 'float')), moved_from(('Point', p, 'float'), MOVES[0]), moved_from(('Point', p, 'float'), MOVES[1], 'returned')]
         nears = [('Point', X.add(p, X.scal(k, E[i])), 'float') for i in range(3) for k in (F(1, 64), F(-1, 1024))]
